@@ -72,7 +72,119 @@ def readAll (p : Nat) : Nat → List Bool → List Nat
     | none => []
     | some (v, rest) => v :: readAll p max rest
 
+/-! #### builder ops -/
+
+def berrStr : BErr → String
+  | .pTooBig => "err:ptoobig"
+  | .pNotSet => "err:pnotset"
+  | .mNotSet => "err:mnotset"
+  | .nTooBig => "err:ntoobig"
+
+def key16? (s : String) : Option Bytes :=
+  match hexToList? s with
+  | some k => if k.length = 16 then some k else none
+  | none => none
+
+def hash32? (s : String) : Option Bytes :=
+  match hexToList? s with
+  | some k => if k.length = 32 then some k else none
+  | none => none
+
+def randomB (b : Builder) : Builder := if b.err.isSome then b else { b with randomKey := true }
+
+/-- constructors; a random key is marked unknown -/
+def parseCtor? (s : String) : Option Builder :=
+  match s.splitOn ":" with
+  | ["zero"] => some {}
+  | ["kpnm", k, p, _n, m] => do
+    let k ← key16? k; let p ← p.toNat?; let m ← m.toNat?
+    pure (Builder.withKeyPNM k p m)
+  | ["kpm", k, p, m] => do
+    let k ← key16? k; let p ← p.toNat?; let m ← m.toNat?
+    pure (Builder.withKeyPNM k p m)
+  | ["k", k] => do
+    let k ← key16? k
+    pure (Builder.withKeyPNM k Spec.BASIC_P Spec.BASIC_M)
+  | ["hpnm", h, p, _n, m] => do
+    let h ← hash32? h; let p ← p.toNat?; let m ← m.toNat?
+    pure (Builder.withKeyPNM (deriveKey h) p m)
+  | ["hpm", h, p, m] => do
+    let h ← hash32? h; let p ← p.toNat?; let m ← m.toNat?
+    pure (Builder.withKeyPNM (deriveKey h) p m)
+  | ["h", h] => do
+    let h ← hash32? h
+    pure (Builder.withKeyPNM (deriveKey h) Spec.BASIC_P Spec.BASIC_M)
+  | ["rpnm", p, _n, m] => do
+    let p ← p.toNat?; let m ← m.toNat?
+    let b := Builder.withKeyPNM (List.replicate 16 0) p m
+    pure { b with randomKey := true }
+  | ["rpm", p, m] => do
+    let p ← p.toNat?; let m ← m.toNat?
+    let b := Builder.withKeyPNM (List.replicate 16 0) p m
+    pure { b with randomKey := true }
+  | ["r"] =>
+    let b := Builder.withKeyPNM (List.replicate 16 0) Spec.BASIC_P Spec.BASIC_M
+    some { b with randomKey := true }
+  | _ => none
+
+/-- run builder ops; `none` = Go panic; observations are accumulated in reverse -/
+def runBld : List String → Builder → List String → Option (List String)
+  | [], _, acc => some acc.reverse
+  | op :: ops, b, acc =>
+    match op.splitOn ":" with
+    | ["sk", k] => match key16? k with
+      | some k => runBld ops (b.setKey k) acc
+      | none => some ["bad-op"]
+    | ["skh", h] => match hash32? h with
+      | some h => runBld ops (b.setKey (deriveKey h)) acc
+      | none => some ["bad-op"]
+    | ["sp", p] => match p.toNat? with
+      | some p => runBld ops (b.setP p) acc
+      | none => some ["bad-op"]
+    | ["sm", m] => match m.toNat? with
+      | some m => runBld ops (b.setM m) acc
+      | none => some ["bad-op"]
+    | ["pre", _n] => runBld ops b.preallocate acc
+    | ["e", d] => match hexToList? d with
+      | some d => match b.addEntry d with
+        | some b' => runBld ops b' acc
+        | none => none
+      | none => some ["bad-op"]
+    | ["es", ds] => match parseItems? ds with
+      | some ds => match b.addEntries ds with
+        | some b' => runBld ops b' acc
+        | none => none
+      | none => some ["bad-op"]
+    | ["w", ds] => match parseItems? ds with
+      | some ds => match b.addEntries ds with
+        | some b' => runBld ops b' acc
+        | none => none
+      | none => some ["bad-op"]
+    | ["ah", h] => match hash32? h with
+      | some h => match b.addEntry h with
+        | some b' => runBld ops b' acc
+        | none => none
+      | none => some ["bad-op"]
+    | ["key"] =>
+      let o := match b.getKey with
+        | .error e => berrStr e
+        | .ok k => if b.randomKey then "key=R" else s!"key={listToHex k}"
+      runBld ops b (o :: acc)
+    | ["build"] =>
+      let o := match b.build sip with
+        | .error e => berrStr e
+        | .ok f => if b.randomKey then s!"build={f.n}/R1" else s!"build={f.n}/{listToHex f.nBytes}"
+      runBld ops b (o :: acc)
+    | _ => some ["bad-op"]
+
 def handle : List String → String
+  | ["bld", ctor, ops] =>
+    match parseCtor? ctor with
+    | none => "bad-op"
+    | some b =>
+      match runBld (if ops == "." then [] else ops.splitOn ";") b [] with
+      | none => "panic"
+      | some obs => if obs.isEmpty then "-" else " ".intercalate obs
   | ["fr", v, nm] =>
     match v.toNat?, nm.toNat? with
     | some v, some nm =>
